@@ -8,7 +8,7 @@
    `count_at s c i log` is the number of times message i was handed to the
    subscribers of side s on channel c. *)
 From Coq Require Import List Bool Arith PeanoNat.
-From RP Require Import Fwd.Model Fwd.Oracle Fwd.Proofs Fwd.Life Fwd.LifeOracle Fwd.LifeProofs.
+From RP Require Import Fwd.Model Fwd.Oracle Fwd.Proofs Fwd.Life Fwd.LifeOracle Fwd.LifeProofs Fwd.Fault Fwd.FaultOracle Fwd.FaultProofs.
 Import ListNotations.
 
 (* exact delivery counts: for every number of pilots, every batch of posts
@@ -281,4 +281,110 @@ Example C16_life_nonvacuous :
        mkev 0 State 2 (Some 2) (Some false); mkev 2 Control 1 (Some 0) (Some false);
        mkev 2 State 3 None (Some true) ],
      11, true, 0, [(0, Register); (1, Lookup); (2, Lookup); (0, Unregister)], 0).
+Proof. vm_compute. reflexivity. Qed.
+
+(* ==== failing hand-overs (RP.Fwd.Fault) ==========================================
+   A fault schedule F names, per crosswire (side, direction, channel), the
+   hand-over attempts (calls of publisher.put on that crosswire) that raise.
+   As in the code, a raising put ends the callback: that copy is lost, nothing
+   is kept and nothing is sent again.  `network_f F n posts sched` is the
+   network of 1 client + n pilots under F; `f_lost` lists the copies whose
+   hand-over failed. *)
+
+(* the books balance for EVERY fault schedule, batch of posts and transport
+   schedule: deliveries + what the lost copies would still have delivered =
+   what the property prescribes *)
+Theorem C16_fault_conservation :
+  forall (F : faultsched) (n : nat) (posts : list post) (sched : list nat)
+         (i s0 : nat) (c0 : chan) (src : source) (s : nat) (c : chan),
+    nth_error posts i = Some (s0, c0, src) -> s0 <= n -> s <= n ->
+    count_at s c i (log (f_net (network_f F n posts sched)))
+    + sum_map (tot2 (sides_of n) (cnt (sides_of n) s c i)) (f_lost (network_f F n posts sched))
+    = expected i (s0, c0, src) s c.
+Proof. exact fault_conservation. Qed.
+Print Assumptions C16_fault_conservation.
+
+(* AT MOST ONCE under faults: no side receives a message more than once,
+   whatever fails, whatever is sent, in whatever order it is transported *)
+Theorem C16_fault_never_twice :
+  forall (F : faultsched) (n : nat) (posts : list post) (sched : list nat)
+         (i s0 : nat) (c0 : chan) (src : source) (s : nat) (c : chan),
+    nth_error posts i = Some (s0, c0, src) -> s0 <= n -> s <= n ->
+    count_at s c i (log (f_net (network_f F n posts sched))) <= 1.
+Proof. exact fault_never_twice. Qed.
+Print Assumptions C16_fault_never_twice.
+
+(* ... and never more often than prescribed (nothing on the other channel,
+   nothing off-side for unflagged messages) *)
+Theorem C16_fault_at_most_prescribed :
+  forall (F : faultsched) (n : nat) (posts : list post) (sched : list nat)
+         (i s0 : nat) (c0 : chan) (src : source) (s : nat) (c : chan),
+    nth_error posts i = Some (s0, c0, src) -> s0 <= n -> s <= n ->
+    count_at s c i (log (f_net (network_f F n posts sched))) <= expected i (s0, c0, src) s c.
+Proof. exact fault_at_most. Qed.
+Print Assumptions C16_fault_at_most_prescribed.
+
+(* EXACTLY ONCE for a message whose hand-overs all succeeded *)
+Theorem C16_fault_exactly_once_if_handed_over :
+  forall (F : faultsched) (n : nat) (posts : list post) (sched : list nat)
+         (i s0 : nat) (c0 : chan) (src : source) (s : nat) (c : chan),
+    nth_error posts i = Some (s0, c0, src) -> s0 <= n -> s <= n ->
+    (forall q, In q (f_lost (network_f F n posts sched)) -> m_id (p_msg q) <> i) ->
+    count_at s c i (log (f_net (network_f F n posts sched))) = expected i (s0, c0, src) s c.
+Proof. exact fault_exact_if_handed_over. Qed.
+Print Assumptions C16_fault_exactly_once_if_handed_over.
+
+(* per receiving side: only the hand-over out of the publishing side and the
+   hand-over into that side matter -- failures towards other sides do not *)
+Theorem C16_fault_exactly_once_per_receiver :
+  forall (F : faultsched) (n : nat) (posts : list post) (sched : list nat)
+         (i s0 : nat) (c0 : chan) (src : source) (s : nat),
+    nth_error posts i = Some (s0, c0, src) -> s0 <= n -> s <= n -> s <> s0 ->
+    post_crosses i (s0, c0, src) = true ->
+    let fl := map (lost_failure tt) (f_lost (network_f F n posts sched)) in
+    failed_at fl (s0, false, c0) i = false -> failed_at fl (s, true, c0) i = false ->
+    count_at s c0 i (log (f_net (network_f F n posts sched))) = 1.
+Proof. exact fault_exact_receiver. Qed.
+Print Assumptions C16_fault_exactly_once_per_receiver.
+
+(* without faults this is the fault-free statement *)
+Theorem C16_fault_free_exact :
+  forall (n : nat) (posts : list post) (sched : list nat)
+         (i s0 : nat) (c0 : chan) (src : source) (s : nat) (c : chan),
+    nth_error posts i = Some (s0, c0, src) -> s0 <= n -> s <= n ->
+    count_at s c i (log (f_net (network_f [] n posts sched))) = expected i (s0, c0, src) s c.
+Proof. exact nofault_exact. Qed.
+Print Assumptions C16_fault_free_exact.
+
+Theorem C16_fault_no_circulation :
+  forall (F : faultsched) (n : nat) (posts : list post) (sched : list nat),
+    pending (f_net (network_f F n posts sched)) = [] /\
+    npub (f_net (network_f F n posts sched)) <= length posts * (n + 2).
+Proof. exact fault_no_circulation. Qed.
+Print Assumptions C16_fault_no_circulation.
+
+(* the model satisfies the two fault clauses evaluated on implementation traces *)
+Theorem C16_fault_model_at_most :
+  forall (F : faultsched) (n : nat) (posts : list post) (sched : list nat),
+    ok_at_most n posts (log (f_net (network_f F n posts sched))) = true.
+Proof. exact model_at_most. Qed.
+Print Assumptions C16_fault_model_at_most.
+
+Theorem C16_fault_model_exactly_once :
+  forall (F : faultsched) (n : nat) (posts : list post) (sched : list nat),
+    let st := network_f F n posts sched in
+    ok_exactly_once_f n posts (map (lost_failure tt) (f_lost st)) (log (f_net st)) = true.
+Proof. exact model_exactly_once_f. Qed.
+Print Assumptions C16_fault_model_exactly_once.
+
+(* non-vacuity: three flagged messages of the client, the 1st and 3rd hand-over
+   towards the proxy fail: messages 0 and 2 are lost for the pilot, message 1
+   arrives once, nothing arrives twice *)
+Example C16_fault_nonvacuous :
+  model_fobs [((0, false, Control), [1; 3])] 1
+             [(0, Control, Raw None (Some true)); (0, Control, Raw None (Some true));
+              (0, Control, Raw None (Some true))] []
+  = ([ mkev 0 Control 0 None (Some true); mkev 0 Control 1 None (Some true);
+       mkev 0 Control 2 None (Some true); mkev 1 Control 1 (Some 0) (Some false) ],
+     5, true, 2, [((0, false, Control), 0); ((0, false, Control), 2)]).
 Proof. vm_compute. reflexivity. Qed.
